@@ -282,6 +282,11 @@ def judge(res, un, tr, spec, wit):
         flt = ",".join(sorted(spec.get("faults", {}))) or "none"
         where = "flush" if "flush fails" in tr["escaped"] else ("injected" if "injected" in tr["escaped"] else "other")
         bad.append((f"exception-reaches-program:{where}", f"faults={flt}: {tr['escaped']} escaped the traced block"))
+    if bool(un.get("block_exception_seen")) != bool(tr.get("block_exception_seen")) and not tr.get("escaped"):
+        flt = ",".join(sorted(spec.get("faults", {}))) or "none"
+        bad.append(("block-exception-swallowed" if un.get("block_exception_seen") else "block-exception-invented",
+                    f"faults={flt}: the traced block's own exception reached the caller untraced={bool(un.get('block_exception_seen'))} traced={bool(tr.get('block_exception_seen'))}"))
+    res.count("block_exits_by_exception_compared", 1 if un.get("block_exception_seen") else 0)
     if not tr.get("profiler_restored"):
         bad.append(("profiler-not-restored", f"after the block sys.getprofile() is {tr.get('profiler_after')}"))
     if tr.get("flushes") != 1:
